@@ -321,7 +321,7 @@ impl std::error::Error for SimIoError {}
 
 type ReadResult = Result<Vec<u8>, Box<dyn std::error::Error + Send + Sync + 'static>>;
 
-fn errbox(kind: &ErrKind, seq: u32) -> Box<dyn std::error::Error + Send + Sync + 'static> {
+fn errbox(kind: &ErrKind, _seq: u32) -> Box<dyn std::error::Error + Send + Sync + 'static> {
     let k = match kind {
         ErrKind::Enoent => 2,
         ErrKind::Eacces => 13,
@@ -329,7 +329,9 @@ fn errbox(kind: &ErrKind, seq: u32) -> Box<dyn std::error::Error + Send + Sync +
         ErrKind::Eisdir => 21,
         ErrKind::Eintr => 4,
     };
-    Box::new(SimIoError { kind: k, seq })
+    // what `std::fs::read` would hand back: a real io::Error carrying the OS error code
+    // (no heap allocation: the code is stored inline)
+    Box::new(std::io::Error::from_raw_os_error(k))
 }
 
 /// A reader that never finds anything (the "empty world").
@@ -344,7 +346,7 @@ pub fn sim_read(path: &str) -> ReadResult {
     // everything allocated in here is harness memory, except what is handed to the library
     let handed = match &ret {
         Ok(v) => v.capacity() as isize,
-        Err(_) => std::mem::size_of::<SimIoError>() as isize,
+        Err(_) => std::mem::size_of::<std::io::Error>() as isize,
     };
     alloc::resume(tok, handed);
     ret
